@@ -56,13 +56,14 @@ var opNames = [...]string{
 }
 
 type Term struct {
-	op   Op
-	bits int // 0 Bool, >0 BV width, sortVal
-	args []*Term
-	val  uint64
-	name string
-	id   int
-	vars varset // input variables occurring
+	op    Op
+	bits  int // 0 Bool, >0 BV width, sortVal
+	args  []*Term
+	val   uint64
+	name  string
+	id    int
+	vars  varset // input variables occurring
+	nvars int    // number of distinct input variables
 }
 
 type varset []uint64
@@ -97,6 +98,13 @@ func (a varset) intersects(b varset) bool {
 	}
 	return false
 }
+func (a varset) count() int {
+	n := 0
+	for _, w := range a {
+		n += bits.OnesCount64(w)
+	}
+	return n
+}
 func (a varset) empty() bool {
 	for _, w := range a {
 		if w != 0 {
@@ -127,15 +135,19 @@ type termKey struct {
 
 // TermStore is a per-worker hash-consing table.
 type TermStore struct {
-	tab    map[termKey]*Term
-	nkey   map[string]*Term // n-ary app terms
-	all    []*Term
-	vars   []*Term // input variables by var index
-	varIdx map[string]int
-	tt, ff *Term
-	ufs    map[string]ufSig // declared uninterpreted functions
-	ufList []string
+	tab     map[termKey]*Term
+	nkey    map[string]*Term // n-ary app terms
+	all     []*Term
+	vars    []*Term // input variables by var index
+	varIdx  map[string]int
+	tt, ff  *Term
+	ufs     map[string]ufSig // declared uninterpreted functions
+	ufList  []string
+	tabMemo map[*Term]*[256]uint64 // truth/value tables of single-byte-variable terms
+	Fast    FastStats
 }
+
+type FastStats struct{ Decided, Tables int }
 
 type ufSig struct {
 	nargs int
@@ -143,7 +155,7 @@ type ufSig struct {
 }
 
 func NewTermStore() *TermStore {
-	ts := &TermStore{tab: map[termKey]*Term{}, nkey: map[string]*Term{}, varIdx: map[string]int{}, ufs: map[string]ufSig{}}
+	ts := &TermStore{tab: map[termKey]*Term{}, nkey: map[string]*Term{}, varIdx: map[string]int{}, ufs: map[string]ufSig{}, tabMemo: map[*Term]*[256]uint64{}}
 	ts.tt = ts.mk(OpConst, 0, 1, "")
 	ts.ff = ts.mk(OpConst, 0, 0, "")
 	return ts
@@ -164,6 +176,7 @@ func (ts *TermStore) mk(op Op, nbits int, val uint64, name string, args ...*Term
 		for _, a := range args {
 			t.vars = t.vars.union(a.vars)
 		}
+		t.nvars = t.vars.count()
 		ts.all = append(ts.all, t)
 		ts.nkey[k] = t
 		return t
@@ -185,6 +198,7 @@ func (ts *TermStore) mk(op Op, nbits int, val uint64, name string, args ...*Term
 	for _, a := range args {
 		t.vars = t.vars.union(a.vars)
 	}
+	t.nvars = t.vars.count()
 	ts.all = append(ts.all, t)
 	ts.tab[k] = t
 	return t
@@ -206,6 +220,7 @@ func (ts *TermStore) Var(name string, nbits int) *Term {
 	vs := make(varset, i/64+1)
 	vs[i/64] |= 1 << uint(i%64)
 	t.vars = vs
+	t.nvars = 1
 	return t
 }
 
@@ -755,66 +770,231 @@ func (ts *TermStore) Show(t *Term) string {
 	return sb.String()
 }
 
+// evalOp applies t's operator to concrete argument values.
+func (ts *TermStore) evalOp(t *Term, a []uint64) (uint64, bool) {
+	switch t.op {
+	case OpConst:
+		return t.val, true
+	case OpNot:
+		return 1 - a[0], true
+	case OpAnd:
+		return a[0] & a[1], true
+	case OpOr:
+		return a[0] | a[1], true
+	case OpIte:
+		if a[0] != 0 {
+			return a[1], true
+		}
+		return a[2], true
+	case OpEq:
+		if a[0] == a[1] {
+			return 1, true
+		}
+		return 0, true
+	case OpNeg:
+		return (-a[0]) & mask(t.bits), true
+	case OpBNot:
+		return (^a[0]) & mask(t.bits), true
+	case OpZExt:
+		return a[0], true
+	case OpSExt:
+		return uint64(sext(a[0], t.args[0].bits)) & mask(t.bits), true
+	case OpExtract:
+		return (a[0] >> (t.val & 0xff)) & mask(t.bits), true
+	case OpConcat:
+		return (a[0]<<uint(t.args[1].bits) | a[1]) & mask(t.bits), true
+	case OpApp, OpVar:
+		return 0, false
+	}
+	n := t.args[0].bits
+	x, y := a[0], a[1]
+	sx, sy := sext(x, n), sext(y, n)
+	var r uint64
+	switch t.op {
+	case OpAdd:
+		r = x + y
+	case OpSub:
+		r = x - y
+	case OpMul:
+		r = x * y
+	case OpUDiv:
+		if y == 0 {
+			r = mask(n)
+		} else {
+			r = x / y
+		}
+	case OpURem:
+		if y == 0 {
+			r = x
+		} else {
+			r = x % y
+		}
+	case OpSDiv:
+		switch {
+		case y == 0:
+			if sx >= 0 {
+				r = mask(n)
+			} else {
+				r = 1
+			}
+		case sy == -1:
+			r = uint64(-sx)
+		default:
+			r = uint64(sx / sy)
+		}
+	case OpSRem:
+		switch {
+		case y == 0:
+			r = x
+		case sy == -1:
+			r = 0
+		default:
+			r = uint64(sx % sy)
+		}
+	case OpBAnd:
+		r = x & y
+	case OpBOr:
+		r = x | y
+	case OpBXor:
+		r = x ^ y
+	case OpShl:
+		if y >= uint64(n) {
+			r = 0
+		} else {
+			r = x << y
+		}
+	case OpLShr:
+		if y >= uint64(n) {
+			r = 0
+		} else {
+			r = x >> y
+		}
+	case OpAShr:
+		if y >= uint64(n) {
+			y = uint64(n) - 1
+		}
+		r = uint64(sx >> y)
+	case OpULt:
+		return b2u(x < y), true
+	case OpULe:
+		return b2u(x <= y), true
+	case OpSLt:
+		return b2u(sx < sy), true
+	case OpSLe:
+		return b2u(sx <= sy), true
+	default:
+		return 0, false
+	}
+	return r & mask(n), true
+}
+
+func b2u(b bool) uint64 {
+	if b {
+		return 1
+	}
+	return 0
+}
+
 // Eval evaluates a term under a model (values of input variables by name).
-// Only Bool/BV terms without uninterpreted functions are supported.
+// Terms with uninterpreted functions are not supported (ok=false).
 func (ts *TermStore) Eval(t *Term, model map[string]uint64) (uint64, bool) {
 	memo := map[*Term]uint64{}
 	ok := true
 	var ev func(t *Term) uint64
 	ev = func(t *Term) uint64 {
+		if t.op == OpConst {
+			return t.val
+		}
+		if t.op == OpVar {
+			return model[t.name] & mask(max(t.bits, 1))
+		}
 		if v, done := memo[t]; done {
 			return v
 		}
-		var r uint64
-		a := func(i int) uint64 { return ev(t.args[i]) }
-		switch t.op {
-		case OpVar:
-			r = model[t.name] & mask(max(t.bits, 1))
-		case OpConst:
-			r = t.val
-		case OpNot:
-			r = 1 - a(0)
-		case OpAnd:
-			r = a(0) & a(1)
-		case OpOr:
-			r = a(0) | a(1)
-		case OpIte:
-			if a(0) != 0 {
-				r = a(1)
-			} else {
-				r = a(2)
-			}
-		case OpEq:
-			if a(0) == a(1) {
-				r = 1
-			}
-		case OpNeg:
-			r = (-a(0)) & mask(t.bits)
-		case OpBNot:
-			r = (^a(0)) & mask(t.bits)
-		case OpZExt:
-			r = a(0)
-		case OpSExt:
-			r = uint64(sext(a(0), t.args[0].bits)) & mask(t.bits)
-		case OpExtract:
-			r = (a(0) >> (t.val & 0xff)) & mask(t.bits)
-		case OpConcat:
-			r = (a(0)<<uint(t.args[1].bits) | a(1)) & mask(t.bits)
-		case OpApp:
+		var buf [3]uint64
+		a := buf[:0]
+		for _, x := range t.args {
+			a = append(a, ev(x))
+		}
+		r, good := ts.evalOp(t, a)
+		if !good {
 			ok = false
-		default:
-			x := ts.Const(a(0), t.args[0].bits)
-			y := ts.Const(a(1), t.args[1].bits)
-			c := ts.Bin(t.op, x, y)
-			if !c.isConst() {
-				ok = false
-			} else {
-				r = c.val
-			}
 		}
 		memo[t] = r
 		return r
 	}
 	v := ev(t)
 	return v, ok
+}
+
+// Table returns the value of a single-variable term for every value of its variable
+// (domain size 2^bits, bits <= 8; Bool variables have domain {0,1}).
+func (ts *TermStore) Table(t *Term) (*[256]uint64, bool) {
+	if tab, ok := ts.tabMemo[t]; ok {
+		return tab, tab != nil
+	}
+	var tab *[256]uint64
+	switch t.op {
+	case OpVar:
+		tab = new([256]uint64)
+		for i := range tab {
+			tab[i] = uint64(i) & mask(max(t.bits, 1))
+		}
+	case OpConst:
+		tab = new([256]uint64)
+		for i := range tab {
+			tab[i] = t.val
+		}
+	default:
+		argT := make([]*[256]uint64, len(t.args))
+		good := true
+		for i, a := range t.args {
+			at, ok := ts.Table(a)
+			if !ok {
+				good = false
+				break
+			}
+			argT[i] = at
+		}
+		if good {
+			tab = new([256]uint64)
+			var buf [3]uint64
+			for v := 0; v < 256 && good; v++ {
+				a := buf[:0]
+				for i := range t.args {
+					a = append(a, argT[i][v])
+				}
+				if len(t.args) > 3 {
+					good = false
+					break
+				}
+				r, ok := ts.evalOp(t, a)
+				if !ok {
+					good = false
+				}
+				tab[v] = r
+			}
+			if !good {
+				tab = nil
+			}
+		}
+	}
+	ts.tabMemo[t] = tab
+	ts.Fast.Tables++
+	return tab, tab != nil
+}
+
+// TruthBits packs the table of a Bool term into a 256-bit set.
+func (ts *TermStore) TruthBits(t *Term) ([4]uint64, bool) {
+	var r [4]uint64
+	tab, ok := ts.Table(t)
+	if !ok {
+		return r, false
+	}
+	for v := 0; v < 256; v++ {
+		if tab[v] != 0 {
+			r[v/64] |= 1 << uint(v%64)
+		}
+	}
+	return r, true
 }
